@@ -47,6 +47,29 @@ func init() {
 		} else {
 			lookups, guardedStore = c19CreateShape(cp)
 		}
+		callsSave := func(name string) bool {
+			fd := funcDecl(f, "Service", name)
+			if fd == nil {
+				problem("pipe.Service." + name + " not found")
+				return false
+			}
+			found := false
+			ast.Inspect(fd.Body, func(n ast.Node) bool {
+				if c, ok := n.(*ast.CallExpr); ok {
+					if se, ok := c.Fun.(*ast.SelectorExpr); ok && se.Sel.Name == "savePipes" {
+						found = true
+					}
+				}
+				return true
+			})
+			return found
+		}
+		l.p("/-- `CreatePipe` persists the registry (`savePipes`) before it returns success -/")
+		l.p("def createPipeSaves : Bool := %s", leanBool(callsSave("CreatePipe")))
+		l.p("/-- `DeletePipe` persists the registry after a successful delete -/")
+		l.p("def deletePipeSaves : Bool := %s", leanBool(callsSave("DeletePipe")))
+		l.p("/-- `Shutdown` persists the registry -/")
+		l.p("def shutdownSaves : Bool := %s", leanBool(callsSave("Shutdown")))
 		l.p("/-- `CreatePipe` looks the name up twice (before and after building the pipe) and stores only under the second look-up's negative answer -/")
 		l.p("def createPipeRechecks : Bool := %s", leanBool(lookups >= 2 && guardedStore))
 		l.p("/-- the `for … range s.ppipes` loop of `GetPipes` contains `cnt++` -/")
